@@ -2,9 +2,11 @@
 # usage: tools/seedtest.sh <patch.diff> <Cxx> [tier]   -- applies the patch to /repo, runs the check, always reverts
 patch="$1"; prop="$2"; tier="${3:-quick}"
 cd /repo || exit 2
-if ! git diff --quiet; then echo "/repo has uncommitted changes"; exit 2; fi
-if ! git apply --3way "$patch" 2>/tmp/seedtest.err && ! git apply "$patch" 2>>/tmp/seedtest.err; then echo "PATCH DOES NOT APPLY"; cat /tmp/seedtest.err; git checkout -- . ; git reset -q; exit 3; fi
-git reset -q
+if ! git diff --quiet || ! git diff --cached --quiet; then echo "/repo has uncommitted changes"; exit 2; fi
+if ! git apply "$patch" 2>/tmp/seedtest.err; then
+  if ! git apply --3way "$patch" 2>>/tmp/seedtest.err; then echo "PATCH DOES NOT APPLY"; head -5 /tmp/seedtest.err; git reset -q; git checkout -- . ; exit 3; fi
+  git reset -q
+fi
 cd /verif && ./check "$prop" --tier "$tier" 2>&1 | grep -E "VIOLATION|KNOWN-FINDING|MACHINERY|: ok;|violating" | cut -c1-300 | head -12
 rc=${PIPESTATUS[0]}
 git -C /repo checkout -- .
